@@ -5,13 +5,16 @@ pub mod gen;
 pub mod peer;
 pub mod refc;
 pub mod registry;
+pub mod scenario;
 pub mod seqs;
+pub mod sim;
 pub mod tree;
 pub mod props {
     pub mod c01;
     pub mod c02;
     pub mod c04;
     pub mod c05;
+    pub mod c10;
     pub mod c11;
     pub mod c13;
     pub mod c14;
@@ -58,6 +61,7 @@ pub fn dispatch() -> Vec<(&'static str, RunFn, ReplayFn)> {
         ("C04", props::c04::run, props::c04::replay),
         ("C05", props::c05::run_c05, props::c05::replay_c05),
         ("C06", props::c05::run_c06, props::c05::replay_c06),
+        ("C10", props::c10::run, props::c10::replay),
         ("C11", props::c11::run, props::c11::replay),
         ("C13", props::c13::run, props::c13::replay),
         ("C14", props::c14::run, props::c14::replay),
